@@ -149,6 +149,7 @@ fn run_one(job: &Value, atomics: bool) -> ExecResult {
     #[allow(deprecated)]
     match prog.strategy.as_str() {
         "nofast" => execute::<arc_swap::strategy::test_strategies::FillFastSlots>(&prog, strat, atomics, &stale),
+        "rwlock" => execute::<std::sync::RwLock<()>>(&prog, strat, atomics, &stale),
         _ => execute::<arc_swap::DefaultStrategy>(&prog, strat, atomics, &stale),
     }
 }
